@@ -62,6 +62,98 @@ def run_scenario(ctx, report, name, spec, timeout_ms):
     return report.add(ob)
 
 
+def with_late_table(spec):
+    """the description that `add_import_table("late", "tbl", ..)` after parse is documented to produce: one more table
+    import (after the existing imports); local tables move up by one in the table index space"""
+    from mirsmt.pipeline import S
+    ntab_imp = sum(1 for i in spec.imports if i['kind'] == 'table')
+    spec.imports.append(dict(module=S('late'), name=S('tbl'), kind='table', element_type='funcref', table64=z3.BoolVal(False), initial=sym('lt_init', 'u64'), maximum=None))
+    for e in spec.exports:
+        if e['kind'] == 'Table' and conc(e['index']) >= ntab_imp:
+            e['index'] = bv(conc(e['index']) + 1, 'u32')
+    for e in spec.elements:
+        if e['mode'] == 'active' and e['table'] is not None and conc(e['table']) >= ntab_imp:
+            e['table'] = bv(conc(e['table']) + 1, 'u32')
+    return spec
+
+
+def local_tables_module():
+    from mirsmt.pipeline import S, Spec
+    from obligations.scen import OP, u32, tagged_body
+    sp = Spec()
+    sp.types = [([], [])]
+    sp.funcs = [dict(type=0, ops=tagged_body('f0_tag')), dict(type=0, ops=tagged_body('f1_tag', 1))]
+    sp.func_tags = ['f0_tag', 'f1_tag']
+    sp.tables = [scen.table('ta', t64=False), scen.table('tb', t64=False)]
+    sp.exports = [dict(name=S('t'), kind='Table', index=u32(0)), dict(name=S('f'), kind='Func', index=u32(0))]
+    sp.elements = [dict(mode='active', table=None, offset=OP('I32Const', value=sym('e0_off', 'i32')), items=('funcs', [u32(0), u32(1)])),
+                   dict(mode='active', table=u32(1), offset=OP('I32Const', value=sym('e1_off', 'i32')), items=('funcs', [u32(1)]))]
+    return sp
+
+
+def with_late_table_first(spec):
+    """same edit on a module whose tables are all local: the new import takes table index 0"""
+    spec = with_late_table(spec)
+    for e in spec.elements:
+        if e['mode'] == 'active' and e['table'] is None:
+            e['table'] = bv(1, 'u32')
+    return spec
+
+
+def run_edit_scenario(ctx, report, name, timeout_ms, mk=None, expect=None):
+    from obligations import c02
+    ob = common.Obligation('O4:' + name, 'parse, then Module::add_import_table through the public API, then emit: the output is the input plus exactly that import; every existing segment, export and operand still denotes the same table')
+    try:
+        I, P = pc.new_pipeline(ctx)
+        mk = mk or (lambda: scen.full_module(0))
+        expect = expect or with_late_table
+        spec = mk()
+        oks, errs, panics = pc.parse_ok_paths(I, P, spec)
+        want = expect(mk())
+        IN = modcmp.in_module(want)
+        vios = []
+        n = 0
+        for s, module in oks:
+            mref = I.halloc(s, module)
+            for s1, v in c02.edit_add_import_table(I, P, s, mref, spec):
+                if v is PANIC:
+                    vios.append({'key': 'edit.panic', 'what': 'add_import_table panics'})
+                    continue
+                for s2, rec, _m in P.run_emit(s1, None, mref=mref):
+                    if rec is PANIC:
+                        vios.append({'key': 'emit.panic', 'what': 'emit after add_import_table panics: %r' % (pc.pipeline_panic_events(s2)[:2],)})
+                        continue
+                    n += 1
+                    OUT = modcmp.out_module(rec)
+                    C, pi = modcmp.compare_structure(want, IN, OUT, want.func_tags)
+                    vios += [{'key': k, 'what': '[%s] %s' % (name, w)} for k, w in C.bad]
+                    for key, what, cond in C.todo:
+                        sol = z3.Solver()
+                        sol.add(*s2.pc)
+                        sol.add(cond)
+                        report.queries += 1
+                        if sol.check() == z3.sat:
+                            vios.append({'key': key, 'what': '[%s] %s not preserved' % (name, what)})
+        ob.detail = '%d emit paths' % n
+        if n == 0 and not vios:
+            ob.status, ob.detail = 'inconclusive', 'vacuous'
+        elif vios:
+            ob.status = 'violated'
+            seen = set()
+            for v in vios:
+                if v['key'] not in seen:
+                    seen.add(v['key'])
+                    report.violations.append(v)
+            ob.cex = [v['what'][:200] for v in vios[:4]]
+        else:
+            ob.status = 'discharged'
+    except Inconclusive as ex:
+        ob.status, ob.detail = 'inconclusive', str(ex)[:400]
+    except modcmp.Mismatch as ex:
+        ob.status, ob.detail = 'inconclusive', 'output record not understood: ' + str(ex)[:300]
+    report.add(ob)
+
+
 def run(tier, seed, only=None):
     report = common.Report('C04', tier, seed)
     ctx = common.Ctx()
@@ -73,6 +165,9 @@ def run(tier, seed, only=None):
             if only and name not in only:
                 continue
             run_scenario(ctx, report, name, scen.full_module(v), timeout_ms)
+        if not only or 'edit/add-import-table' in only:
+            run_edit_scenario(ctx, report, 'edit/add-import-table', timeout_ms)
+            run_edit_scenario(ctx, report, 'edit/add-import-table/local-tables-only', timeout_ms, local_tables_module, with_late_table_first)
     engine.run_in_big_stack(go)
     report.bounds = {'structure': 'three descriptions: 4 types, 5-6 imports (func,table,memory,global), 3 local functions, 2 tables, 2 memories, 7 globals (all 7 constant-expression forms), 7 exports, start, 5-7 element segments (active implicit/explicit table, passive, declared; function-index and funcref/externref expression items), 3 data segments (active const / active global.get / passive), data count present and absent',
                      'attributes': 'every limit (u64), flag (bool), initialiser / offset constant (i32,i64,f32 bits,f64 bits,16 v128 bytes) is symbolic over its full width; Option-valued attributes (maximum, page_size_log2, table index) are covered in both alternatives across the three variants'}
